@@ -365,8 +365,10 @@ struct Outcome {
   bool ok = true;
   std::string cls;  // violation class when !ok
   std::string msg;
-  uint64_t hash = 0;  // transcript hash
+  uint64_t hash = 0;  // transcript hash (every event, allocator calls included)
+  uint64_t obs = 0;   // hash of the configuration-independent observables only
   uint64_t steps = 0;
+  bool nontrivial = true;  // by the family's stated rule (evidence: distinct_nontrivial)
 };
 
 // Every scenario family implements these two entry points.
